@@ -175,6 +175,7 @@ type liar struct {
 	sw  *p2p.Switch
 	id  p2p.ID
 
+	smu     sync.Mutex // held from logging "chunk-start"/"adv-start" until the message is handed to the connection: per liar, log order = send order
 	mu      sync.Mutex
 	reqNo   int
 	round   int
